@@ -515,6 +515,10 @@ func init() {
 			for _, src := range c05Regex() {
 				kC05.Do(c, c05Case{Src: src, Alias: 0})
 			}
+			// values that registered Go functions hand back
+			for _, src := range c05CallbackSrcs {
+				kC05Callback.Do(c, c05CallbackCase{Src: src})
+			}
 			// the caller's slice of variable values
 			for _, t := range c05ValuesCases() {
 				kC05Values.Do(c, t)
